@@ -28,12 +28,31 @@ use vsv::{Bit, Bv, Sim};
 
 /// Finding shapes shown by `finding-shapes` (each demonstrated against the
 /// real translator; reproducers under /verif/known/C22).
-const CONFIRMED: &[Hz] = &[
-    Hz::LtGt,
-    Hz::Cond,
-    Hz::Repl,
-    Hz::Ff,
-];
+const CONFIRMED: &[Hz] = Hz::ALL;
+
+/// The stages at which a finding's shape is known to surface; the first is
+/// the one its signature names.  (A dropped dimension, for instance, shows as
+/// a port-width difference, or earlier as an out-of-range select when the
+/// body selects from the port.)  Any other stage is a different behaviour
+/// and gets its own, unlisted signature.
+fn stages_of(h: Hz) -> &'static [&'static str] {
+    match h {
+        Hz::LtGt | Hz::Cond | Hz::Repl | Hz::Inside | Hz::CaseEq | Hz::Cast | Hz::Casez | Hz::CaseArmBlock | Hz::Keyword | Hz::GenLabel | Hz::TrailingComment => &["invalid-veryl"],
+        Hz::Ff | Hz::Func1Bit | Hz::FuncLocal => &["analysis-error"],
+        Hz::PortInherit | Hz::DimNonZero => &["ports", "analysis-error"],
+        Hz::AlwaysBody | Hz::ForStep | Hz::Unpacked | Hz::InstOrdered => &["behaviour", "analysis-error"],
+        Hz::ForLe | Hz::CompoundAssign | Hz::UntypedParam | Hz::WireInit | Hz::WireSigned | Hz::InstParam | Hz::XnorCaretTilde => &["behaviour"],
+    }
+}
+
+fn signature_for(stage: &str, shapes: &[Hz]) -> String {
+    if let [h] = shapes
+        && stages_of(*h).contains(&stage)
+    {
+        return format!("{}:{}", stages_of(*h)[0], h.key());
+    }
+    format!("{stage}:{}", shapes.iter().map(|h| h.key()).collect::<Vec<_>>().join("+"))
+}
 
 #[derive(Default)]
 struct StatsInner {
@@ -96,7 +115,7 @@ fn port_sig(v: &[PortSpec]) -> Vec<String> {
 }
 
 /// The whole pipeline on one text.  `draw_value(width)` supplies stimulus values.
-fn pipeline(sv: &str, top: &str, cfg: &ClockCfg, cycles: usize, draw_value: &mut dyn FnMut(usize) -> Bv, midrun_reset: &mut dyn FnMut() -> bool) -> Run {
+fn pipeline(sv: &str, sv_sim: &str, top: &str, cfg: &ClockCfg, cycles: usize, draw_value: &mut dyn FnMut(usize) -> Bv, midrun_reset: &mut dyn FnMut() -> bool) -> Run {
     let mut run = Run {
         stage: Stage::SvParse(String::new()),
         veryl: String::new(),
@@ -130,7 +149,7 @@ fn pipeline(sv: &str, top: &str, cfg: &ClockCfg, cycles: usize, draw_value: &mut
     };
     run.emitted = b.sv.clone();
     run.warnings = b.warnings;
-    let mut so = match Sim::from_sv(&[sv], top) {
+    let mut so = match Sim::from_sv(&[sv_sim], top) {
         Ok(s) => s,
         Err(u) => {
             run.stage = Stage::OrigUnreadable(u);
@@ -259,7 +278,7 @@ fn one_case(d: &mut Draw, shapes: bool, cycles: usize, stats: &Stats) -> Outcome
             words_to_bv(&words, w)
         };
         let mut mr = || dd.borrow_mut().chance(1, 12);
-        pipeline(&case.sv, &case.top, &case.clock, cycles, &mut dv, &mut mr)
+        pipeline(&case.sv, &case.sv_sim, &case.top, &case.clock, cycles, &mut dv, &mut mr)
     };
     {
         let mut g = stats.inner.lock().unwrap();
@@ -283,11 +302,16 @@ fn one_case(d: &mut Draw, shapes: bool, cycles: usize, stats: &Stats) -> Outcome
     }
     let hz_names: Vec<&str> = case.hazards.iter().map(|h| h.key()).collect();
     if let Some((stage, detail, msg)) = failure_of(&run) {
-        let sig = if hz_names.is_empty() { format!("{stage}:unclassified/{detail}") } else { format!("{stage}:{}", hz_names.join("+")) };
-        return Outcome::fail(sig, msg, input_json(&case.sv, &case.top, &case.clock, &run));
+        let shapes: Vec<Hz> = case.hazards.iter().copied().collect();
+        let sig = if shapes.is_empty() { format!("{stage}:unclassified/{detail}") } else { signature_for(stage, &shapes) };
+        let mut input = input_json(&case.sv, &case.top, &case.clock, &run);
+        if case.sv_sim != case.sv {
+            input["sv_as_simulated"] = json!(case.sv_sim);
+        }
+        return Outcome::fail(sig, msg, input);
     }
     match run.stage {
-        Stage::SvParse(e) => Outcome::skip(format!("generator: sv-parser rejects the text ({})", first_line(&e).chars().take(60).collect::<String>())),
+        Stage::SvParse(_) => Outcome::skip("generator: sv-parser rejects the text"),
         Stage::Reported(kinds) => {
             let ks: BTreeSet<String> = kinds.into_iter().collect();
             Outcome::skip(format!("outside the domain: translator reported unsupported {}", ks.into_iter().collect::<Vec<_>>().join(", ")))
@@ -354,11 +378,16 @@ fn reproducer(payload: &Value) -> Outcome {
         seed2.set(s);
         r
     };
-    let run = pipeline(&sv, &top, &cfg, 24, &mut dv, &mut mr);
+    let sv_sim = if s("sv_sim").is_empty() { sv.clone() } else { s("sv_sim") };
+    let run = pipeline(&sv, &sv_sim, &top, &cfg, 24, &mut dv, &mut mr);
     if let Some((stage, _, msg)) = failure_of(&run) {
         // the listed key names the stage; another stage is another behaviour
         let suffix = key.split_once(':').map(|x| x.1).unwrap_or(&key);
-        return Outcome::fail(format!("{stage}:{suffix}"), msg, input_json(&sv, &top, &cfg, &run));
+        let sig = match Hz::from_key(suffix) {
+            Some(h) => signature_for(stage, &[h]),
+            None => format!("{stage}:{suffix}"),
+        };
+        return Outcome::fail(sig, msg, input_json(&sv, &top, &cfg, &run));
     }
     match run.stage {
         Stage::Ok(_) => Outcome::pass(hash_str(&sv), false, vec!["reproducer".into()], sv),
@@ -443,8 +472,14 @@ fn dev_modes() -> bool {
         for f in sv_files(&p) {
             let sv = std::fs::read_to_string(&f).unwrap();
             let key = sv.lines().next().and_then(|l| l.strip_prefix("// key:")).map(|k| k.trim().to_string()).unwrap_or_default();
+            if f.to_string_lossy().ends_with(".sim.sv") {
+                continue;
+            }
             let stem = f.with_extension("");
-            let payload = json!({"sv": sv, "key": key});
+            let mut payload = json!({"sv": sv, "key": key});
+            if let Ok(sim) = std::fs::read_to_string(stem.with_extension("sim.sv")) {
+                payload["sv_sim"] = json!(sim);
+            }
             let p2 = payload.clone();
             let out = on_thread(move || reproducer(&p2)).unwrap_or(Outcome::skip("panic"));
             match out {
@@ -480,6 +515,15 @@ fn dev_modes() -> bool {
                 allow.insert(h);
             }
             let c = svgen::gen_case(&mut d, &allow);
+            if std::env::var("VERIF_C22_ONLY_REJECTED").is_ok() {
+                if let Err(e) = pipe::translate(&c.sv) {
+                    let off: usize = e.rsplit(", ").next().and_then(|t| t.trim_end_matches(|ch: char| !ch.is_ascii_digit()).parse().ok()).unwrap_or(0);
+                    let lo = off.saturating_sub(120);
+                    let hi = (off + 60).min(c.sv.len());
+                    println!("// ---- case {i}: {e}\n...{}<<<HERE>>>{}...", &c.sv[lo..off.min(c.sv.len())], &c.sv[off.min(c.sv.len())..hi]);
+                }
+                continue;
+            }
             println!("// ---- case {i}: top={} ops={} procs={} hazards={:?} draws={}\n{}", c.top, c.ops, c.procs, c.hazards, d.used(), c.sv);
         }
         return true;
@@ -507,8 +551,8 @@ pub fn run(ctx: &Ctx) {
     if dev_modes() {
         std::process::exit(0);
     }
-    let n_main = ctx.scale(2400, 60_000);
-    let n_shapes = ctx.scale(320, 6_000);
+    let n_main = ctx.scale(720, 40_000);
+    let n_shapes = ctx.scale(270, 8_000);
     let cycles = if ctx.is_quick() { 12 } else { 40 };
     let stats = Arc::new(Stats::default());
     ctx.run_payloads("reproducer", reproducer);
